@@ -320,6 +320,8 @@ AGG_CHOICES = [
     ["unit", "county_fips", "postal_code"],
     ["postal_code", "county_fips", "county_classification", "unit"],
     ["county_classification", "postal_code"],
+    ["unit"],
+    ["county_fips", "unit"],
 ]
 
 
